@@ -298,7 +298,79 @@ def _check_moved(case):
         shutil.rmtree(d, ignore_errors=True)
 
 
+def _special_cases(tier, seed):
+    for fmt in ('epytext', 'restructuredtext'):
+        for k in ((0, 3) if tier == 'quick' else (0, 1, 3, 7)):
+            yield {'fmt': fmt, 'k': k, 'special': True}
+
+
+def _check_special(case):
+    """three rarely taken paths: (1) a property whose docstring consists of fields only; (2) a docstring with a markup problem that another
+    module's overriding method inherits; (3) a name that two sibling modules define ('ambiguous ref'), mentioned below the first paragraph"""
+    from pydoctor import driver
+    ep = case['fmt'] == 'epytext'
+    link = (lambda n: f'L{{{n}}}') if ep else (lambda n: f'`{n}`')
+    ret = (lambda t: f'@return: {t}') if ep else (lambda t: f':return: {t}')
+    unk = '@nosuchfield: value' if ep else ':nosuchfield: value'
+    bad = 'Markup problem: closing brace } without opening one.' if ep else 'Markup problem: ``unbalanced literal.'
+    pad = '\n' * case['k']
+    props = (pad + 'class Holder:\n    """\n    The class.\n\n    More words.\n    """\n    x = 1\n\n    @property\n    def size(self):\n        """\n        '
+             + ret('the size, see ' + link('missing_in_property')) + '\n        ' + unk + '\n        """\n        return 1\n')
+    base = (pad + 'class Base:\n    "doc"\n    def run(self):\n        """\n        Summary of run.\n\n        ' + bad + '\n\n        See ' + link('missing_in_base') + '.\n        """\n')
+    derived = 'from sp.base import Base\n\n\n\nclass Derived(Base):\n    "doc"\n    def run(self):\n        pass\n' + '\n' * 30
+    user = (pad + 'def use():\n    """\n    First paragraph,\n    on two lines.\n\n    Second paragraph.\n\n    Third paragraph: this one\n    mentions ' + link('Gadget')
+            + ' which two modules define.\n    """\n')
+    files = {'__init__.py': '', 'props.py': props, 'base.py': base, 'derived.py': derived, 'user.py': user,
+             'one.py': 'class Gadget:\n    "doc"\n', 'two.py': 'class Gadget:\n    "doc"\n'}
+    d = tempfile.mkdtemp(prefix='c16.', dir='/var/tmp')
+    try:
+        os.makedirs(os.path.join(d, 'sp'))
+        for name, text in files.items():
+            with open(os.path.join(d, 'sp', name), 'w') as f:
+                f.write(text)
+        out = io.StringIO()
+        with contextlib.redirect_stdout(out), contextlib.redirect_stderr(io.StringIO()):
+            try:
+                driver.main(['--html-output', os.path.join(d, 'out'), '--docformat', case['fmt'], '--project-name', 'p', os.path.join(d, 'sp')])
+            except SystemExit:
+                pass
+        msgs = [l for l in out.getvalue().splitlines() if re.match(r'.*?:(\d+|\?\?\?): ', l)]
+        fails = []
+
+        def line_of(text, needle):
+            return next(i for i, l in enumerate(text.splitlines(), 1) if needle in l)
+
+        def expect(needle_msg, fname, text, needle_src, what, first_line_of=None):
+            # the first line of the paragraph / field, or (docutils, for a paragraph of several lines) a line of it up to the one at fault
+            first, last = line_of(text, first_line_of or needle_src), line_of(text, needle_src)
+            hits = [l for l in msgs if needle_msg in l]
+            if not hits:
+                fails.append({'observed': f'{what}: no message mentioning {needle_msg!r}', 'required': 'the problem is reported', 'class': 'special-missing:' + what})
+            for l in hits:
+                m = re.match(r'(.*?):(\d+|\?\?\?): ', l)
+                ok_line = m.group(2).isdigit() and (int(m.group(2)) == first if ep else first <= int(m.group(2)) <= last)
+                if not m.group(1).endswith('sp/' + fname) or not ok_line:
+                    fails.append({'observed': f'{what}: reported as {l[:140]!r}', 'required': f'sp/{fname}:{first}' + ('' if ep else f'..{last}'), 'class': 'special-location:' + what})
+        expect('missing_in_property', 'props.py', props, 'missing_in_property', 'property-fields-only xref')
+        expect('nosuchfield', 'props.py', props, 'nosuchfield', 'property-fields-only unknown field')
+        if not ep:       # (a fatal epytext error turns the whole docstring into plain text: no cross-references are left to resolve)
+            expect('missing_in_base', 'base.py', base, 'missing_in_base', 'inherited xref')
+        expect('bad docstring', 'base.py', base, 'Markup problem', 'inherited markup problem')
+        expect('Gadget', 'user.py', user, 'Gadget', 'ambiguous ref', first_line_of='Third paragraph')
+        # nothing is reported against the module that merely inherits the docstring
+        for l in msgs:
+            if 'sp/derived.py' in l.split(': ')[0]:
+                fails.append({'observed': f'reported against the inheriting module: {l[:140]!r}', 'required': 'the file that contains the docstring at fault', 'class': 'special-inheriting-module'})
+        return fails or None
+    finally:
+        shutil.rmtree(d, ignore_errors=True)
+
+
 HARNESS = {
+    f'{E}:parse_docstring': {'cases': _special_cases, 'check': _check_special,
+        'covers': ['pydoctor/astbuilder.py:ModuleVistor._handlePropertyDef', 'pydoctor/linker.py:_EpydocLinker.look_for_name'],
+        'bound': 'a property documented by fields only, a docstring with a markup problem inherited across modules, a name two sibling modules define; '
+                 '2 formats x 2 (4) vertical offsets, real runs'},
     f'{U}:extract_docstring_linenum': {'cases': _lin_cases, 'check': _check_lin,
         'covers': [f'{U}:extract_docstring', f'{M}:Documentable.setDocstring'],
         'bound': '5 docstring layouts x 4 vertical offsets x 4 object kinds'},
